@@ -40,6 +40,8 @@ def cmd(with_ds):
 
 
 REL = None
+FRAG_BOUND = 2        # non-last command / data fragments per incoming message (3 in the thorough tier)
+PP_SECOND = ('P:c3n', 'P:rel_rq', 'P:abort_u', 'P:rel_rp', 'P:d2')
 
 
 class Abs(object):
@@ -80,11 +82,11 @@ class Abs(object):
                 if 'Evt10c' in row:
                     if sta in (6, 7):
                         if self.rx in ('idle', 'cmd'):
-                            if self.ncmd < 2:
+                            if self.ncmd < FRAG_BOUND:
                                 out.append('P:c1')
                             out += ['P:c3n', 'P:c3d']
                         else:
-                            if self.ndat < 2:
+                            if self.ndat < FRAG_BOUND:
                                 out.append('P:d0')
                             out.append('P:d2')
                     else:
@@ -100,7 +102,7 @@ class Abs(object):
                         b = self.clone()
                         b.apply(x)
                         en2 = b.enabled(pairs=False)
-                        for y in ('P:c3n', 'P:rel_rq', 'P:abort_u', 'P:rel_rp', 'P:d2'):
+                        for y in (PP_SECOND or [z for z in en2 if z.startswith('P:') and not z.endswith('+close') and z not in ('P:half', 'P:rest')]):
                             if y in en2:
                                 out.append('PP:%s,%s+close' % (x, y))
                                 if y in ('P:c3n', 'P:d2'):
@@ -170,7 +172,7 @@ class Abs(object):
         elif a in ('P:c1', 'P:c3n', 'P:c3d', 'P:d0', 'P:d2'):
             established = sta in (6, 7)
             if a == 'P:c1':
-                piece = cmd(True)[20 * self.ncmd:20 * self.ncmd + 20]
+                piece = cmd(True)[13 * self.ncmd:13 * self.ncmd + 13]
                 conc = ('pdu', e2.pdata(3, 1, piece))
                 mevs = ['Evt10p']
                 if established:
@@ -178,7 +180,7 @@ class Abs(object):
                     self.rx = 'cmd'
             elif a in ('P:c3n', 'P:c3d'):
                 full = cmd(a == 'P:c3d')
-                off = 20 * self.ncmd if established else 0
+                off = 13 * self.ncmd if established else 0
                 conc = ('pdu', e2.pdata(3, 3, full[off:]))
                 if a == 'P:c3n' or not established:
                     mevs = ['Evt10c']
@@ -188,12 +190,12 @@ class Abs(object):
                     mevs = ['Evt10p']
                     self.rx = 'need_ds'
             elif a == 'P:d0':
-                conc = ('pdu', e2.pdata(3, 0, DATASET[10 * self.ndat:10 * self.ndat + 10]))
+                conc = ('pdu', e2.pdata(3, 0, DATASET[7 * self.ndat:7 * self.ndat + 7]))
                 mevs = ['Evt10p']
                 self.ndat += 1
                 self.rx = 'ds'
             else:
-                conc = ('pdu', e2.pdata(3, 2, DATASET[10 * self.ndat:]))
+                conc = ('pdu', e2.pdata(3, 2, DATASET[7 * self.ndat:]))
                 mevs = ['Evt10c']
                 self.rx, self.ncmd, self.ndat = 'idle', 0, 0
         elif a == 'close':
@@ -343,6 +345,13 @@ def check_history(role, hist, delta, deviations=None):
     return viol, e2.canon(env), a, tuple(obs_sig)
 
 
+def _set_tier(tier):
+    global FRAG_BOUND, PP_SECOND
+    if tier == 'thorough':
+        FRAG_BOUND = 3
+        PP_SECOND = None      # every peer PDU as second element of a two-PDU segment
+
+
 def expand(args):
     """Worker: run all children of one frontier history; for every child, also run the deviation sweep of
     every grandchild (child + one more enabled event) restricted to the loop heads at which the child's last
@@ -448,6 +457,30 @@ def deviate(args):
     return n, len(sigs), viols
 
 
+def nodedup(args):
+    """Worker for the abstraction cross-check: every history below `prefix` up to `depth` events is executed WITHOUT
+    state deduplication; returns the set of (canonical state, abstract state) keys reached and any violations."""
+    role, prefix, depth = args
+    common.import_repo()
+    delta = _delta()
+    keys = set()
+    viols = []
+    n = 0
+    stack = [list(prefix)]
+    while stack:
+        hist = stack.pop()
+        viol, canon, a, sig = check_history(role, hist, delta)
+        n += 1
+        keys.add((canon, a.key()))
+        for s_, m in viol:
+            viols.append((s_ + ':nodedup', m, {'role': role, 'hist': hist}))
+        if len(hist) < depth and not viol:
+            for ev in a.enabled(pairs=False):
+                if not ev.endswith('+close'):
+                    stack.append(hist + [ev])
+    return n, keys, viols[:20]
+
+
 _DELTA = None
 
 
@@ -461,10 +494,12 @@ def _delta():
 def run_case(case):
     common.import_repo()
     delta = _delta()
+    _set_tier(case.get('tier', 'quick'))
     if case.get('simultaneous'):
         pe, ue = case['simultaneous'].split('|')
         return {'viol': check_simultaneous(case['role'], case['hist'], pe, ue, delta), 'case': case}
     dev = {p: True for p in case.get('dev', [])} or None
+    _set_tier(case.get('tier', 'quick'))
     viol, canon, a, sig = check_history(case['role'], case['hist'], delta, deviations=dev)
     if dev:
         viol = [(s + ':dev', m) for s, m in viol]
@@ -475,6 +510,7 @@ def main(tier, seed):
     common.import_repo()
     import multiprocessing
     rep = common.Report(ID, tier, seed, LEVEL)
+    _set_tier(tier)
     delta, stats = model.automaton(False)
     global _DELTA
     _DELTA = delta
@@ -509,12 +545,12 @@ def main(tier, seed):
                         dev_exec += ndev
                         if key is None:
                             for s, m in viol:
-                                rep.add(common.Viol(s, m, {'role': role, 'hist': child[:-1], 'simultaneous': child[-1]}))
+                                rep.add(common.Viol(s, m, {'role': role, 'hist': child[:-1], 'simultaneous': child[-1], 'tier': tier}))
                             continue
                         sigs.add(sig[-2:] if len(sig) > 1 else sig)
                         edges_cov.update(new_edges)
                         for s, m in viol:
-                            rep.add(common.Viol(s, m, {'role': role, 'hist': child}))
+                            rep.add(common.Viol(s, m, {'role': role, 'hist': child, 'tier': tier}))
                         if key not in seen:
                             seen.add(key)
                             if not viol:
@@ -525,6 +561,22 @@ def main(tier, seed):
                 frontier = nxt
             depth_closed[role] = depth if not frontier else None
             seen_all += len(seen)
+            if tier == 'thorough':
+                # cross-check of the canonical-state abstraction: depth-4 sweep without deduplication
+                a0 = Abs(role, delta)
+                firsts = [[ev] for ev in a0.enabled(pairs=False) if not ev.endswith('+close')]
+                nd_n = 0
+                missing = 0
+                for n, keys, viols in pool.imap(nodedup, [(role, f, 4) for f in firsts], chunksize=1):
+                    nd_n += n
+                    missing += len([k for k in keys if k not in seen])
+                    for s_, m, case in viols:
+                        rep.add(common.Viol(s_, m, case))
+                rep.coverage.setdefault('nodedup_cross_check', {})[role] = {'histories_executed': nd_n, 'depth': 4,
+                                                                           'states_not_found_by_dedup_search': missing}
+                if missing:
+                    raise common.HarnessError('canonical-state abstraction is unsound: %d states reached without deduplication were '
+                                              'never reached by the deduplicating search (role %s)' % (missing, role))
     edges_cov.add(((1, 'ac', False, 'none'), 'Evt5'))   # taken by every acceptor run at start-up (checked at step 0)
     reachable_edges = set((k, ev) for k, row in delta.items() for ev in row)
     not_covered = sorted(reachable_edges - edges_cov)
